@@ -142,7 +142,14 @@ func (c01) Gen(r *kern.Rng, tier string, idx int) *Trace {
 				sc.Data.Len = r.Pick(300, 1000, 2600, 4200, 7000, 20000, 30000) + r.Intn(300)
 			}
 		}
-		if q := idx / 197; q%4 == 0 || (r.Pct(10) && sc.Level != -2) {
+		if q := idx / 197; q%4 == 2 {
+			// every fourth sweep: a block that ENDS in its rarest symbols (15-bit codes directly before end-of-block),
+			// cycling through Huffman-only (twice), level 1 and level 2
+			c := q / 4
+			sc.Level = []int{-2, 1, -2, 2}[c%4]
+			sc.Data.Kind, sc.Data.P1, sc.Data.P2 = "fib", []int{21, 16, 24, 30}[(c/4)%4], r.Pick(3, 3, 4, 7)
+			sc.Data.Len = r.Pick(2600, 4200, 7000, 20000, 30000, 47000) + r.Intn(300)
+		} else if q%4 == 0 || (r.Pct(10) && sc.Level != -2) {
 			// sparse-file shape: the length of the incompressible head sweeps across the point where the token
 			// buffer fills (32767 tokens: one literal per token in the portable finder, two at the assembly levels),
 			// and a long repeat starts there. Every fourth sweep is of this kind and they cycle through both
